@@ -86,10 +86,12 @@ func (c *ClusterInfo) snapshotQueueResourceUsage() (*queue_info.ClusterUsage, er
 }
 
 // UpdateQueueHierarchy iterates over a map containing multiple levels of queue hierarchies, and updates queues with
-// child queues where relevant
+// child queues where relevant. Queues that are not connected to a root queue (orphans, and queues whose parent chain
+// forms a cycle) are removed, so that walking from any remaining queue up its parents always terminates.
 func UpdateQueueHierarchy(queues map[common_info.QueueID]*queue_info.QueueInfo) {
 	updateQueueChildren(queues)
 	cleanQueueOrphans(queues)
+	cleanQueueCycles(queues)
 }
 
 func updateQueueChildren(queues map[common_info.QueueID]*queue_info.QueueInfo) {
@@ -112,6 +114,35 @@ func cleanQueueOrphans(queues map[common_info.QueueID]*queue_info.QueueInfo) {
 			}
 		}
 	}
+}
+
+// cleanQueueCycles removes queues whose parent chain never reaches a root queue: members of a parent cycle (including
+// a queue that is its own parent) and their descendants. Nothing in the queue CRD validation prevents such a graph.
+func cleanQueueCycles(queues map[common_info.QueueID]*queue_info.QueueInfo) {
+	var unrooted []common_info.QueueID
+	for queueId := range queues {
+		if !reachesRootQueue(queues, queueId) {
+			unrooted = append(unrooted, queueId)
+		}
+	}
+	for _, queueId := range unrooted {
+		log.InfraLogger.V(2).Warnf("Found queue %s with a cyclic parent chain (parent %s), deleting it",
+			queueId, queues[queueId].ParentQueue)
+		delete(queues, queueId)
+	}
+}
+
+func reachesRootQueue(queues map[common_info.QueueID]*queue_info.QueueInfo, queueId common_info.QueueID) bool {
+	steps := 0
+	for queue, found := queues[queueId]; found; queue, found = queues[queue.ParentQueue] {
+		if queue.ParentQueue == "" {
+			return true
+		}
+		if steps++; steps > len(queues) {
+			return false
+		}
+	}
+	return false
 }
 
 func deleteQueueAndChildren(queues map[common_info.QueueID]*queue_info.QueueInfo, queueID common_info.QueueID) {
